@@ -59,6 +59,8 @@ def explore(mod, tier, seed):
             # imap keeps enumeration order: the first case of a violation class stays the shortest one
             for r in pool.imap(_run_shard, [(mod.__name__, s) for s in shards], chunksize=1):
                 total.merge(r)
+    if total.state_set:
+        total.states = len(total.state_set)
     return total, len(shards)
 
 
